@@ -36,4 +36,29 @@ CHECKS = {
   'text': 'Every history (modified / not-modified / syntax-error / cancelled / chained / two-comment / literal-heavy / multi-block inputs on two same-config rewriter instances and one default-prefix instance) up to length h, plus every call repeated 25x, runs in its own process; each call must return exactly what a single call in a fresh process returns (content, metrics, literal set, error text).',
   'note': _NATIVE + '; a native process stands in for the wasm instance',
  },
+ 'C05': {
+  'technique': 'explicit enumeration of the configuration lattice (present/absent/renamed per entry), of option-presence patterns x verbosity spellings, and breadth-first search over event orders {load A, load B, tracer installs hooks, call A, call B}; closed-world and iff oracles on the annotated erasure, execution of every event order in V8',
+  'text': 'Every subset of 9 configuration entries (with renamings and variants) is applied to a side-by-side program holding every operation kind in four placements: the set of _ddiast.<name> names must be a subset of the configured replacement names, every hook must sit on an enabled operation with the configured name, enabled operations must be instrumented, an empty list must give not-modified, and the prologue must define every configured name. Option defaults are read back through the cfg hook for all 2^6 presence patterns. Every order of load/install/call events up to length 5 is executed: no ReferenceError/TypeError before the tracer installs, an existing hook object is never replaced, installed hooks are reached.',
+  'note': _NATIVE + '; duplicate src entries: only the closed-world rule is judged',
+ },
+ 'C06': {
+  'technique': 'bounded-exhaustive exploration (families A,B,C,G,M) with a static scope/liveness analysis of every injected temporary, plus executed re-entrancy histories (recursion, generators, async interleavings, closures, hook re-entry) and exhaustive placement of reserved-prefix identifiers',
+  'text': 'Every occurrence of a reserved-prefix identifier in every explored output must resolve to an injected let of an enclosing block without crossing a function / parameter / class-field boundary, be assigned in its own sequence and not be reassigned by a nested expression while live; 39 re-entrancy shapes are executed differentially (with identity hooks and with hooks that re-enter the function); 43 placements x 8 spellings of a reserved-prefix identifier must be refused or behave identically.',
+  'note': _NATIVE + '; two open known findings (temporaries of non-arrow parameter defaults and of instance field initialisers are shared across activations)',
+ },
+ 'C07': {
+  'technique': 'full-product enumeration of directive sequences (length <= 3 over 4 spellings) x look-alikes x 14 scope kinds x instrumentation kinds; directive lists of raw ASTs compared scope by scope, strictness probes executed in V8',
+  'text': 'For every directive prologue shape in the program and in every kind of function body, with and without injected declarations, the leading directive list of every scope in AST(content) must equal that of AST(input), and strictness probes (this-binding, assignment to an undeclared name) must answer the same on both sides.',
+  'note': _NATIVE,
+ },
+ 'C08': {
+  'technique': 'bounded-exhaustive exploration (families A,B,C,G,M + ~130 grammar-sensitive contexts x operations x comments) and a corpus of real library files; content re-parsed by the repo parser and compiled (not run) by V8 in the kind of the input',
+  'text': 'For every explored program and corpus file that V8 accepts, the content must be accepted by the rewriter\'s own parser with the same script/module kind and by V8 (module: SourceTextModule; otherwise CommonJS function wrapper), and end with exactly one decodable version-3 source map trailer.',
+  'note': _NATIVE + '; V8 of Node 20 defines "Node itself can parse"',
+ },
+ 'C12': {
+  'technique': 'bounded-exhaustive exploration (families A,B,C,M + 17 not-modified bodies x 9 byte-level variants x 5 configs) through the native call and through the real main.js wrappers; status vs hook count from the annotated erasure',
+  'text': 'For every leaf: notmodified => empty raw content and main.js hands back the caller\'s text byte for byte (NonCacheRewriter and CacheRewriter); modified => at least one hook call site, the prologue and a decodable trailer; an input holding a REQUIRED operation is never reported not-modified; an empty method list is always not-modified.',
+  'note': _NATIVE + '; main.js is the real file, the wasm class it loads is a stand-in answered by the native service',
+ },
 }
